@@ -213,8 +213,23 @@ impl Range {
         Ok(content_range_list)
     }
 
+    pub const ERROR_PATH_TRAVERSAL: &'static str = "path contains a parent directory segment";
+
+    // true if any segment of the path is '..', such a path may point outside of the served directory
+    pub fn is_path_traversal(path: &str) -> bool {
+        path.split(|x: char| x == '/' || x == '\\').any(|segment| segment == "..")
+    }
+
     pub fn get_content_range_list(request_uri: &str, range: &Header) -> Result<Vec<ContentRange>, Error> {
         let mut content_range_list : Vec<ContentRange> = vec![];
+
+        if Range::is_path_traversal(request_uri) {
+            let error = Error {
+                status_code_reason_phrase: STATUS_CODE_REASON_PHRASE.n403_forbidden,
+                message: Range::ERROR_PATH_TRAVERSAL.to_string()
+            };
+            return Err(error);
+        }
 
         let url_array = ["http://", "localhost", &request_uri.replace(&FileExt::get_path_separator(), SYMBOL.slash)];
         let url = url_array.join(SYMBOL.empty_string);
